@@ -23,6 +23,7 @@ import (
 
 	"github.com/pingcap/kvproto/pkg/metapb"
 	"github.com/tikv/pd/server/core"
+	"github.com/tikv/pd/server/schedule/opt"
 	"verif/harness/lib/ev"
 	"verif/harness/lib/sim"
 )
@@ -75,7 +76,12 @@ type runner struct {
 }
 
 // exec runs one case on an existing cluster.
-func (rn *runner) exec(cl *cluster, k *kase, origin *sim.Region, originInfo *core.RegionInfo) {
+func (rn *runner) exec(cl opt.Cluster, k *kase, origin *sim.Region, originInfo *core.RegionInfo) {
+	rn.execBetween(cl, k, origin, originInfo, nil)
+}
+
+// execBetween is exec with a hook that runs between NewBuilder and the rest of the builder chain.
+func (rn *runner) execBetween(cl opt.Cluster, k *kase, origin *sim.Region, originInfo *core.RegionInfo, between func()) {
 	s := rn.st
 	e, ok := expectation(origin, &k.Req)
 	if e == nil {
@@ -83,9 +89,12 @@ func (rn *runner) exec(cl *cluster, k *kase, origin *sim.Region, originInfo *cor
 		return
 	}
 	s.count("builds_total", 1)
-	op, err, panicked := invoke(cl, originInfo, &k.Req)
+	if k.Family != "" {
+		s.count("builds_family_"+k.Family, 1)
+	}
+	op, err, panicked := invoke(cl, originInfo, &k.Req, between)
 	if panicked != nil {
-		s.report(&finding{Key: "panic-in-build:" + k.Req.API + ":" + k.World.Mode, What: fmt.Sprintf("building the operator panicked: %v", panicked), Case: k,
+		s.report(&finding{Key: "panic-in-build:" + k.Req.API + ":" + k.World.Mode + familySuffix(k), What: fmt.Sprintf("building the operator panicked: %v", panicked), Case: k,
 			Size: len(origin.Peers) * 100, Witness: map[string]interface{}{"case": k, "origin": origin.Describe(), "panic": fmt.Sprint(panicked)}})
 		return
 	}
@@ -136,16 +145,37 @@ type xcfg struct {
 	Roles   bool     // enumerate expected-role requests
 	Helpers bool     // enumerate the Create*Operator helpers
 	Joint   bool     // enumerate joint-state origins (leave-joint, transfer-leader)
+	// FailAlloc > 0: the FailAlloc-th id allocation of every build fails (family alloc-fault).
+	FailAlloc int
+	// Missing > 0: the last Missing stores have no store record in the cluster although peers may live
+	// on them and requests may name them (family no-store-record); Labels: zone/host labels and
+	// location labels are configured so that the label comparison code runs.
+	Missing int
+	Labels  bool
+}
+
+func (c *xcfg) family() string {
+	switch {
+	case c.FailAlloc > 0:
+		return "alloc-fault"
+	case c.Missing > 0:
+		return "no-store-record"
+	}
+	return ""
 }
 
 func (c *xcfg) world() *world {
-	w := &world{Mode: c.Mode, Rules: "off"}
-	for i := 0; i < c.S; i++ {
+	w := &world{Mode: c.Mode, Rules: "off", LocationLabels: c.Labels}
+	for i := 0; i < c.S-c.Missing; i++ {
 		st := stUp
 		if i < len(c.States) && c.States[i] != "" {
 			st = c.States[i]
 		}
-		w.Stores = append(w.Stores, storeDesc{ID: uint64(i + 1), State: st})
+		sd := storeDesc{ID: uint64(i + 1), State: st}
+		if c.Labels {
+			sd.Zone, sd.Host = fmt.Sprintf("z%d", 1+i%2), fmt.Sprintf("h%d", 1+i/2)
+		}
+		w.Stores = append(w.Stores, sd)
 	}
 	return w
 }
@@ -244,8 +274,26 @@ func (rn *runner) runItem(c *xcfg, w *world, cl *cluster, it xitem) {
 	layout := layoutString(specs)
 	origin := originRegion(specs)
 	info := origin.Info()
+	fam := c.family()
+	var fc *faultCluster
+	if c.FailAlloc > 0 {
+		fc = &faultCluster{Cluster: cl.Cluster}
+	}
 	run := func(q request) {
-		rn.exec(cl, &kase{World: w, Origin: layout, Req: q}, origin, info)
+		k := &kase{World: w, Origin: layout, Req: q, Family: fam, FailAlloc: c.FailAlloc}
+		if fc == nil {
+			rn.exec(cl, k, origin, info)
+			return
+		}
+		fc.arm(c.FailAlloc)
+		before := rn.st.counters["builds_error"]
+		rn.exec(fc, k, origin, info)
+		if fc.failed {
+			rn.st.count("alloc_faults_injected", 1)
+			if rn.st.counters["builds_error"] == before {
+				rn.st.count("alloc_fault_build_still_returned_an_operator", 1)
+			}
+		}
 	}
 	leaderStore := uint64(it.leader + 1)
 	if it.joint {
@@ -369,6 +417,13 @@ func exhaustiveConfigs(r *ev.Run) []xcfg {
 		cfgs = append(cfgs, xcfg{Name: fmt.Sprintf("S4/%s/down+offline", m), S: 4, Mode: m, States: []string{"", "", stDown, stOffline}, Roles: r.Thorough(), Helpers: true})
 		cfgs = append(cfgs, xcfg{Name: fmt.Sprintf("S4/%s/reject+paused+disconnected", m), S: 4, Mode: m, States: []string{"", stReject, stPaused, stDisconnected}, Helpers: true})
 		cfgs = append(cfgs, xcfg{Name: fmt.Sprintf("S3/%s/only-store1-up", m), S: 3, Mode: m, States: []string{"", stDown, stBusy}, Roles: true, Helpers: true, Joint: m == modeJoint})
+		// faults: the 1st / 2nd / 3rd id allocation of a build fails (a build allocates one id per new peer)
+		for k := 1; k <= 3; k++ {
+			cfgs = append(cfgs, xcfg{Name: fmt.Sprintf("S4/%s/alloc-fault-%d", m, k), S: 4, Mode: m, FailAlloc: k, Helpers: k == 1})
+		}
+		// peers and requests on a store without a store record, location labels configured
+		cfgs = append(cfgs, xcfg{Name: fmt.Sprintf("S4/%s/store4-no-record", m), S: 4, Mode: m, Missing: 1, Labels: true, Roles: true, Helpers: true})
+		cfgs = append(cfgs, xcfg{Name: fmt.Sprintf("S4/%s/store3+4-no-record/force", m), S: 4, Mode: m, Missing: 2, Labels: true, Force: true})
 	}
 	return cfgs
 }
@@ -729,7 +784,16 @@ func replayFile(r *ev.Run, path string, merge func(*stats)) {
 	}
 	defer cl.close()
 	rn := &runner{st: newStats()}
-	rn.exec(cl, k, origin, origin.Info())
+	if k.FailAlloc > 0 {
+		fc := &faultCluster{Cluster: cl.Cluster}
+		fc.arm(k.FailAlloc)
+		rn.exec(fc, k, origin, origin.Info())
+	} else {
+		rn.exec(cl, k, origin, origin.Info())
+	}
+	if (k.Family == "live-world" || k.Family == "concurrent") && len(rn.st.findings) == 0 {
+		r.Inconclusive("replay: the witness comes from a %s history (world changes / overlapping builds); the case alone did not reproduce it, see witness.case.history", k.Family)
+	}
 	rn.st.shapes["replay"] = struct{}{}
 	rn.st.shapes["replay2"] = struct{}{}
 	merge(rn.st)
@@ -786,6 +850,8 @@ func main() {
 	} else {
 		exhaustivePhase(r, workers, merge)
 		randomPhase(r, workers, merge)
+		livePhase(r, workers, merge)
+		concurrentPhase(r, merge)
 		r.Exhaustive(true)
 		r.Set("exhaustive_max_stores", r.Pick(4, 5))
 		r.Floor(int64(r.Pick(100000, 100000)))
